@@ -187,8 +187,10 @@ class Ctx:
             'violations': len(confirmed),
         }
         validate_evidence(ev)
-        os.makedirs(os.path.join(VERIF, 'evidence'), exist_ok=True)
-        p = os.path.join(VERIF, 'evidence', '%s.json' % self.prop)
+        # evidence/ only ever describes runs against /repo itself; runs against a scratch copy go to scratch/
+        evdir = os.path.join(VERIF, 'evidence') if os.path.realpath(REPO) == '/repo' else os.path.join(VERIF, 'scratch', 'evidence-other-repo')
+        os.makedirs(evdir, exist_ok=True)
+        p = os.path.join(evdir, '%s.json' % self.prop)
         with open(p + '.tmp', 'w') as fh:
             json.dump(ev, fh, indent=1, sort_keys=True, default=str)
         os.replace(p + '.tmp', p)
